@@ -98,7 +98,7 @@ def gen_case(rng: random.Random, tier: str) -> dict:
         elif fam == "xlsx_dimension":
             c.update({"ref": rng.choice(["A1:XFD1048576", "A1:ZZ100000", "A1:C3", "A1:XFD10"])})
         elif fam == "entities":
-            c.update({"target": rng.choice(["docx", "odt", "html", "epub"]), "depth": rng.choice([3, 9]), "enc": rng.choice(["utf-8", "utf-8", "utf-16", "utf-16-be"])})
+            c.update({"target": rng.choice(["docx", "odt", "html", "epub"]), "depth": rng.choice([3, 5, 5, 6, 9]), "enc": rng.choice(["utf-8", "utf-8", "utf-16", "utf-16-be"])})
         elif fam == "deep":
             c.update({"fmt": rng.choice(["html", "rtf", "docx", "json", "odt"]), "depth": rng.choice([200, 900, 3000, 20000])})
             if c["fmt"] in ("html", "rtf", "json"):
@@ -536,10 +536,11 @@ def _run_budgeted(case, data, route_name, U, viol, probes, log):
     t0 = time.process_time()
     exc = None
     nres = 0
+    out_chars = 0
     try:
         for r in get_extractor(route_name)(io.BytesIO(data), route_name):
             nres += 1
-            r.get_full_text()
+            out_chars += len(r.get_full_text())
     except BaseException as e:  # noqa
         exc = e
     cpu = time.process_time() - t0
@@ -560,6 +561,10 @@ def _run_budgeted(case, data, route_name, U, viol, probes, log):
     if cpu > cpu_b:
         probes["budget_exceeded"] = 1
         viol.append({"class": "amplification_time", "sig": f"{fsig}|cpu", "detail": f"{len(data)}-byte input (U={U}): CPU {cpu:.1f}s > bound {cpu_b:.1f}s"})
+    if case.get("family") == "entities" and out_chars > 64 * U + (1 << 20):
+        # entity tricks: the only honest outcomes are a refusal or the unexpanded text; megabytes of text out of a few KB are the expansion itself
+        # (the XML library's own amplification guard only stops it later, far below the memory bound above)
+        viol.append({"class": "amplification_output", "sig": f"{fsig}|entities_expanded", "detail": f"{len(data)}-byte input (U={U}) produced {out_chars} characters of text"})
     return outcome, peak, cpu
 
 
